@@ -200,6 +200,7 @@ CONSTANTS = [('TEN', 'integer', '10', 10), ('GREETING', 'string', 'hello', 'hell
              ('ZERO', 'integer', '0', 0), ('NO', 'boolean', 'false', False), ('BLANK', 'string', '', ''), ('NIL', 'real', '0.0', 0.0)]
 B2_BODY = [RET(B('+', P('p'), I(100)))]          # EE2::b
 FB_BODY = [RET(B('+', P('p'), I(1000)))]         # ::b
+FB_TWIN_BODY = [RET(B('+', P('p'), I(7000)))]    # ::B -- a function whose name differs from ::b in letter case only (round 8, C15-15)
 # external entity CALC (fixed bodies): several bridges with different bodies, parameters and return forms -- a value, a bare
 # return behind a side effect, a boolean, invocations of a sibling bridge; the bridge without side effect comes last
 NC = lambda ee, name, **kw: ('ncall', ee, name, sorted(kw.items()))
@@ -432,6 +433,11 @@ def build_bp_model(system):
     fbp = m.new('S_SPARM', Name='p')
     relate(fbp, fb, 24)
     relate(fbp, dt('integer'), 26)
+    fb2 = pe(m.new('S_SYNC', Name='B', Suc_Pars=1, Action_Semantics_internal=body_text(FB_TWIN_BODY)))
+    relate(fb2, dt('integer'), 25)
+    fbp2 = m.new('S_SPARM', Name='p')
+    relate(fbp2, fb2, 24)
+    relate(fbp2, dt('integer'), 26)
     # enumeration Color chained by R56
     s_dt = pe(m.new('S_DT', Name='Color'))
     s_edt = m.new('S_EDT')
@@ -472,6 +478,7 @@ def reference_callables(system):
     for name, params, _, body in CALC_BRIDGES:
         bridges[('CALC', name)] = E.Callable(name, params, body, kind='bridge')
     functions['b'] = E.Callable('b', PARAMS['b'], FB_BODY)
+    functions['B'] = E.Callable('B', PARAMS['b'], FB_TWIN_BODY)
     derived = {('A', 'D'): E.Callable('D', [], derived_statements('D', BODIES['D'][system['D']][1], as_return=True), kind='derived', owner='A')}
     return dict(functions=functions, operations=operations, bridges=bridges, derived=derived,
                 enums={'Color': list(ENUM)}, constants=dict((name, value) for name, _, _, value in CONSTANTS))
@@ -502,8 +509,13 @@ def entries():
     out.append(('py:D read, other instance created, read again', [2, 0], 'pyderived_other', 0))
     for order in ((0, 1, 2), (2, 1, 0), (1, 2, 0)):
         out.append(('py:same-named callables %s' % (order,), [], 'pysamename', order))
+    for order in ((0, 1), (1, 0)):
+        out.append(('py:functions b and B %s' % (order,), [], 'pycasetwin', order))
     # OAL callers: caller variables must survive the call; calls in expressions, by-name in permuted order
     callers = [
+        ('oal:functions b and B', [RET(B('+', B('*', ('fcall', 'B', [('p', I(1))]), I(3)), ('fcall', 'b', [('p', I(1))])))]),
+        ('oal:functions B and b', [ASG(V('x'), ('fcall', 'b', [('p', I(2))])), ASG(V('y'), ('fcall', 'B', [('p', I(2))])),
+                                   RET(B('-', V('y'), V('x')))]),
         ('oal:call in expression', [ASG(V('x'), I(5)), ASG(V('y'), F_('f', n=I(2))), ASG(V('i'), I(3)), ASG(V('t'), I(4)),
                                     RET(B('+', B('+', B('*', V('x'), I(1000)), B('*', V('i'), I(100))), B('+', B('*', V('t'), I(10)), V('y'))))]),
         ('oal:permuted parameters', [RET(B('-', ('fcall', 'g', [('m', I(5)), ('n', I(1))]), ('fcall', 'g', [('n', I(1)), ('m', I(5))])))]),
@@ -683,6 +695,12 @@ def run_reference(system, entry):
         for i in payload:
             res[i] = calls[i]()
         value = [res[0], res[1], res[2]]
+    elif kind == 'pycasetwin':
+        calls = [lambda: ev.run(ev.functions['b'].body, dict(p=1)), lambda: ev.run(ev.functions['B'].body, dict(p=1))]
+        res = {}
+        for i in payload:
+            res[i] = calls[i]()
+        value = [res[0], res[1]]
     elif kind == 'pysymbols':
         value = [0, 1, 2] + [v for _, _, _, v in CONSTANTS]
     elif kind == 'pyclash':
@@ -752,6 +770,12 @@ def run_real(bp_model, system, entry, other_bp=None):
             for i in payload:
                 res[i] = calls[i]()
             value = [res[0], res[1], res[2]]
+        elif kind == 'pycasetwin':
+            calls = [lambda: dom.find_symbol('b')(p=1), lambda: dom.find_symbol('B')(p=1)]
+            res = {}
+            for i in payload:
+                res[i] = calls[i]()
+            value = [res[0], res[1]]
         elif kind == 'pysymbols':
             c = dom.find_symbol('Color')
             value = [c.Red, c.Green, c.Blue] + [dom.find_symbol(name) for name, _, _, _ in CONSTANTS]
@@ -832,7 +856,7 @@ def system_task(ctx, task):
 def two_component_task(ctx, task):
     '''The entries on a component of system s1 while a component of system s2 (built later) is alive.'''
     tier, pairs = task
-    es = [e for e in entries() if e[2] in ('pyfunc', 'pycop', 'pybridge', 'pyop', 'pysymbols', 'pysamename', 'pyclash', 'pycalc', 'oal')]
+    es = [e for e in entries() if e[2] in ('pyfunc', 'pycop', 'pybridge', 'pyop', 'pysymbols', 'pysamename', 'pycasetwin', 'pyclash', 'pycalc', 'oal')]
     for s1, s2 in pairs:
         bp1, bp2 = build_bp_model(s1), build_bp_model(s2)
         ctx.count('component_pairs')
